@@ -96,8 +96,15 @@ def work(t):
   shapes = shapes_of(t)
   D = t['D']
   tag = f"pmap|{t['mode']}|N={t['N']}|D={D}"
-  tr1, leaves, outs1, _ = evaluate(c, shapes, 1)
-  trD, _, outsD, interps = evaluate(c, shapes, D, leaves)
+  try:
+    tr1, leaves, outs1, _ = evaluate(c, shapes, 1)
+    trD, _, outsD, interps = evaluate(c, shapes, D, leaves)
+  except dsh.RealCodeError as ex:
+    cf = confirm(t)
+    if cf is None:
+      return dict(results=[], violations=[], errors=[f'{tag}: real code raised while tracing but the pmap replay passed: {ex}'], configs=1)
+    return dict(results=[dict(name=f'{tag}|real code raises when traced for D devices', status='violation', kind='core', queries=0, note=str(ex)[:300])],
+                violations=[dict(key=f"C13:{t['mode']}:crash", what=cf['what'], replay=cf['replay'])], errors=[], configs=1)
   g_, st_, p_ = tr1.unflatten_in(leaves)
   count = st_.count.item()
   rng = [count >= 0, count <= 2 ** 31 - 2]
